@@ -103,6 +103,8 @@ class Scenario:
             s = self.sock(ev[1])
             if s is None or (s.fs.connecting and (not s.fs.conn_done or s.fs.so_error)):
                 return False        # no data can arrive on a socket whose connect has not completed
+            if getattr(s, "frags", None):
+                return False        # a fragmented message is still trickling in on this socket
             data = b""
             for name in ev[2:]:
                 d = self.message(s, name)
@@ -110,6 +112,18 @@ class Scenario:
                     return False
                 data += d
             nw.deliver(s.fs, data)
+        elif kind == "mfrag":
+            # deliver the next third of message ev[2] on socket ev[1] (a message trickling in over several reads)
+            s = self.sock(ev[1])
+            if s is None or (s.fs.connecting and (not s.fs.conn_done or s.fs.so_error)):
+                return False
+            if not getattr(s, "frags", None):
+                d = self.message(s, ev[2])
+                if d is None:
+                    return False
+                k = max(1, len(d) // 3)
+                s.frags = [d[:k], d[k:2 * k], d[2 * k:]]
+            nw.deliver(s.fs, s.frags.pop(0))
         elif kind == "tick":
             nw.tick(ev[1])
         elif kind == "eof" or kind == "rst":
